@@ -215,6 +215,14 @@ func genFunctionsOpt(r *rand.Rand, nf int, table map[int]string, allowHuge bool)
 				continue
 			}
 			s := site{Num: pickNum(), Gap: r.Intn(5)}
+			switch r.Intn(40) {
+			case 0, 1, 2: // the number is loaded far ahead of the trap (the search goes back through the whole function)
+				s.Gap = []int{16, 63, 64, 65, 126, 127, 128, 129, 255, 256, 257, 511, 512, 513}[r.Intn(14)]
+			case 3:
+				if allowHuge {
+					s.Gap = []int{1000, 1023, 1024, 1025, 4095, 4096, 4097, 5000}[r.Intn(8)]
+				}
+			}
 			switch r.Intn(6) {
 			case 0, 1:
 				s.Kind = "raw"
@@ -356,13 +364,18 @@ func extractOne(archName, path string) (res c16Result) {
 	return
 }
 
+var keepStderr *os.File
+
 // c16Worker: vc c16-worker <listfile>; the list holds "arch<TAB>path" lines.
 // Every input exists on disk before it is parsed and its name is logged
 // before the call, so a runtime fatal names its input.
 func c16Worker() {
 	devnull, _ := os.OpenFile("/dev/null", os.O_WRONLY, 0)
 	if devnull != nil {
-		os.Stderr = devnull // the parser's WARN lines
+		// the parser's WARN lines. The original value stays referenced: were it collected, its finalizer would close
+		// descriptor 2, a later pipe would get that number, and Go ends the process on EPIPE for descriptors 1 and 2.
+		keepStderr = os.Stderr
+		os.Stderr = devnull
 	}
 	f, err := os.Open(os.Args[2])
 	if err != nil {
@@ -613,7 +626,7 @@ func c16() {
 				// the worker died: the input announced last is the culprit
 				if last >= 0 && !doneSet[last] {
 					mu.Lock()
-					results[last] = &c16Result{File: cases[last].path, Panic: "RUNTIME FATAL: worker process died: " + tail(errb.String(), 400)}
+					results[last] = &c16Result{File: cases[last].path, Panic: fmt.Sprintf("RUNTIME FATAL: worker process died (%v): %s", werr, tail(errb.String(), 400))}
 					mu.Unlock()
 					doneSet[last] = true
 				}
